@@ -162,13 +162,30 @@ func (ss *session) run(sc *proto.Scenario) (res *proto.Result, crashed bool, cra
 		err  error
 	}
 	ch := make(chan reply, 1)
+	var strm stream
 	go func() {
 		if _, werr := s.in.Write(append(in, '\n')); werr != nil {
 			ch <- reply{nil, werr}
 			return
 		}
-		line, rerr := s.out.ReadBytes('\n')
-		ch <- reply{line, rerr}
+		for {
+			line, rerr := s.out.ReadBytes('\n')
+			if len(line) > 0 {
+				r, perr := strm.feed(line)
+				if perr != nil {
+					ch <- reply{line, perr}
+					return
+				}
+				if r != nil {
+					ch <- reply{line, nil}
+					return
+				}
+			}
+			if rerr != nil {
+				ch <- reply{nil, rerr}
+				return
+			}
+		}
 	}()
 	var rp reply
 	select {
@@ -189,12 +206,12 @@ func (ss *session) run(sc *proto.Scenario) (res *proto.Result, crashed bool, cra
 				se = se[:3000]
 			}
 			x.crashes.Add(1)
-			return nil, true, se, nil
+			return strm.partial(se), true, se, nil
 		}
 		return nil, false, "", toolErrf("serving worker died: %v: %s", rp.err, firstLines(se, 5))
 	}
 	res = &proto.Result{}
-	if err := json.Unmarshal(rp.line, res); err != nil {
+	if err := json.Unmarshal(bytes.TrimSpace(rp.line), res); err != nil {
 		return nil, false, "", toolErrf("unparsable worker output: %v: %.200s", err, rp.line)
 	}
 	if res.Retire {
@@ -228,6 +245,7 @@ func (x *executor) runFresh(sc *proto.Scenario) (res *proto.Result, crashed bool
 	if ctx.Err() != nil {
 		return nil, false, "", toolErrf("worker watchdog (%v) expired for scenario seed=%d label=%s", x.timeout, sc.Seed, sc.Label)
 	}
+	results, last := parseOutput(stdout.Bytes())
 	if runErr != nil {
 		var ee *exec.ExitError
 		if errors.As(runErr, &ee) {
@@ -237,20 +255,38 @@ func (x *executor) runFresh(sc *proto.Scenario) (res *proto.Result, crashed bool
 					se = se[:3000]
 				}
 				x.crashes.Add(1)
-				return nil, true, se, nil
+				return last.partial(se), true, se, nil
 			}
 			return nil, false, "", toolErrf("worker exited with %v: %s", runErr, firstLines(se, 5))
 		}
 		return nil, false, "", toolErrf("cannot start worker: %v", runErr)
 	}
-	res = &proto.Result{}
-	if err := json.Unmarshal(bytes.TrimSpace(stdout.Bytes()), res); err != nil {
-		return nil, false, "", toolErrf("unparsable worker output: %v: %.200s", err, stdout.String())
+	if len(results) != 1 {
+		return nil, false, "", toolErrf("unparsable worker output: %d results: %.200s", len(results), stdout.String())
 	}
+	res = results[0]
 	if res.Fatal != "" {
 		return nil, false, "", toolErrf("worker reported: %s", res.Fatal)
 	}
 	return res, false, "", nil
+}
+
+// parseOutput splits a worker's stdout into the final results it contains and
+// the events streamed after the last complete result.
+func parseOutput(out []byte) ([]*proto.Result, *stream) {
+	var results []*proto.Result
+	cur := &stream{}
+	for _, line := range bytes.Split(out, []byte{'\n'}) {
+		r, err := cur.feed(line)
+		if err != nil {
+			continue
+		}
+		if r != nil {
+			results = append(results, r)
+			cur = &stream{}
+		}
+	}
+	return results, cur
 }
 
 // runSessionFresh executes prelude scenarios and then sc, in this order, in one
@@ -286,22 +322,87 @@ func (x *executor) runSessionFresh(prelude [][]byte, sc *proto.Scenario) (res *p
 	if ctx.Err() != nil {
 		return nil, false, "", toolErrf("worker watchdog expired for a session of %d scenarios", len(prelude)+1)
 	}
+	results, tail := parseOutput(stdout.Bytes())
 	if runErr != nil {
 		se := stderr.String()
 		if strings.Contains(se, "fatal error:") || strings.Contains(se, "panic:") {
-			return nil, true, truncate(se, 3000), nil
+			if len(results) == len(prelude) {
+				// died in the scenario of interest
+				return tail.partial(truncate(se, 3000)), true, truncate(se, 3000), nil
+			}
+			return nil, false, "", toolErrf("session died in prelude scenario %d of %d", len(results)+1, len(prelude))
 		}
 		return nil, false, "", toolErrf("worker exited with %v: %s", runErr, firstLines(se, 5))
 	}
-	lines := bytes.Split(bytes.TrimSpace(stdout.Bytes()), []byte{'\n'})
-	if len(lines) != len(prelude)+1 {
-		return nil, false, "", toolErrf("session of %d scenarios produced %d results", len(prelude)+1, len(lines))
+	if len(results) != len(prelude)+1 {
+		return nil, false, "", toolErrf("session of %d scenarios produced %d results", len(prelude)+1, len(results))
 	}
-	res = &proto.Result{}
-	if err := json.Unmarshal(lines[len(lines)-1], res); err != nil {
-		return nil, false, "", toolErrf("unparsable worker output: %v", err)
+	return results[len(results)-1], false, "", nil
+}
+
+// stream accumulates the event lines a worker writes while a scenario runs.
+type stream struct {
+	ops     []proto.OpResult
+	viol    []proto.Violation
+	started []proto.Ref
+}
+
+// feed consumes one stdout line. It returns the final result when the line is
+// one, nil for an event line.
+func (st *stream) feed(line []byte) (*proto.Result, error) {
+	line = bytes.TrimSpace(line)
+	if len(line) == 0 {
+		return nil, nil
 	}
-	return res, false, "", nil
+	if bytes.HasPrefix(line, []byte(`{"ev":"`)) {
+		var ev struct {
+			Ev string          `json:"ev"`
+			D  json.RawMessage `json:"d"`
+		}
+		if err := json.Unmarshal(line, &ev); err != nil {
+			return nil, nil // a torn last line of a dying process
+		}
+		switch ev.Ev {
+		case "start":
+			var r proto.Ref
+			if json.Unmarshal(ev.D, &r) == nil {
+				st.started = append(st.started, r)
+			}
+		case "op":
+			var o proto.OpResult
+			if json.Unmarshal(ev.D, &o) == nil {
+				st.ops = append(st.ops, o)
+			}
+		case "viol":
+			var v proto.Violation
+			if json.Unmarshal(ev.D, &v) == nil {
+				st.viol = append(st.viol, v)
+			}
+		}
+		return nil, nil
+	}
+	res := &proto.Result{}
+	if err := json.Unmarshal(line, res); err != nil {
+		return nil, err
+	}
+	return res, nil
+}
+
+// partial builds what is known about a scenario whose process died.
+func (st *stream) partial(text string) *proto.Result {
+	res := &proto.Result{Crashed: true, CrashText: text, Ops: st.ops, Violations: st.viol}
+	for _, r := range st.started {
+		done := false
+		for _, o := range st.ops {
+			if o.Task == r.Task && o.Op == r.Op {
+				done = true
+			}
+		}
+		if !done {
+			res.InFlight = append(res.InFlight, r)
+		}
+	}
+	return res
 }
 
 func firstLines(s string, n int) string {
